@@ -194,7 +194,7 @@ type Options struct {
 
 // Verify symbolically executes fn against its contract and collects obligations.
 func (e *Engine) Verify(fn *ssa.Function, ct *Contract, props []string, opt Options) (vc *VC) {
-	vc = &VC{eng: e, fn: fn, contract: ct, props: props, declSet: map[string]bool{}, iterPid: map[string]int{}, notes: map[string]bool{}, used: map[string]bool{},
+	vc = &VC{eng: e, fn: fn, contract: ct, props: props, declSet: map[string]bool{}, iterPid: map[string]int{}, iterSeekState: map[string]string{}, notes: map[string]bool{}, used: map[string]bool{},
 		valueLabels: map[string]string{}, maxPaths: opt.MaxPaths, inlineDepth: opt.InlineDepth, lets: map[string]SV{}, key: opt.Key}
 	if ct != nil {
 		vc.safety = ct.Safety
@@ -227,6 +227,7 @@ func (e *Engine) Verify(fn *ssa.Function, ct *Contract, props []string, opt Opti
 		return vc
 	}
 	st := &State{heaps: map[string]*Term{}, ghosts: map[string]*Term{}, globals: map[*ssa.Global]Value{}}
+	allocRefs.Range(func(k, _ interface{}) bool { allocRefs.Delete(k); return true }) // reference names are per function
 	vc.declare("alloc_0", sortInt)
 	st.alloc = T(sortInt, "alloc_0")
 	st.assume(Bin(sortBool, ">=", st.alloc, IntLit(0)))
